@@ -262,7 +262,9 @@ func (x *Exec) invoke(fr *Frame, st *State, in ssa.Instruction, c *ssa.CallCommo
 	ct := x.ifaceContract(recvT, m.Name())
 	if ct != nil && ct.Flags["pure"] {
 		x.enc.trusted["assumed: "+full+" is a pure observer of its receiver"] = true
-		k(st, []Val{x.pureMethod(st, m, recv, args)})
+		res := x.pureMethod(st, m, recv, args)
+		x.linkImplementers(fr, st, recvT, m, recv, res)
+		k(st, []Val{res})
 		return
 	}
 	if ct != nil {
@@ -553,8 +555,10 @@ func (x *Exec) callByContract(fr *Frame, st *State, in ssa.Instruction, fn *ssa.
 	for k2, v := range st.heap {
 		snapshot[k2] = v
 	}
-	for _, a := range args {
-		st.publish(a)
+	if ct.IsIface {
+		for _, a := range args {
+			st.publish(a)
+		}
 	}
 	if !ct.HasMod && !ct.Flags["pure"] {
 		st.havocAll(nil)
@@ -762,6 +766,7 @@ func (x *Exec) builtin(fr *Frame, st *State, in ssa.Instruction, b *ssa.Builtin,
 		case *types.Basic:
 			return []Val{{K: VTerm, T: x.fromInt(app(SInt, "slen", x.strTerm(st, v))), Typ: types.Typ[types.Int]}}
 		case *types.Map:
+			x.mapAccessCheck(fr, st, in, v, false)
 			st.mapFacts(u, v.T)
 			return []Val{{K: VTerm, T: x.fromInt(st.mapLen(u, v.T)), Typ: types.Typ[types.Int]}}
 		case *types.Array:
@@ -990,3 +995,48 @@ func (x *Exec) locksBalanced(fr *Frame, st *State) {
 // onAcquire, raceCheck, ledgerUpdate: thread-modular mode and ghost ledgers (see tmode.go).
 
 func newBig(n int64) *big.Int { return big.NewInt(n) }
+
+// linkImplementers: for a pure interface method, every module type that implements it and whose
+// method is under contract contributes  dyntype(recv) == T  ==>  ensures_T[self := payload, r0 := result].
+func (x *Exec) linkImplementers(fr *Frame, st *State, recvT types.Type, m *types.Func, recv Val, res Val) {
+	it, ok := types.Unalias(recvT).Underlying().(*types.Interface)
+	if tp, isTP := recvT.(*types.TypeParam); isTP {
+		it, ok = tp.Constraint().Underlying().(*types.Interface)
+	}
+	if !ok {
+		return
+	}
+	for _, name := range sortedKeys(x.prog.PPkgs) {
+		pp := x.prog.PPkgs[name]
+		for _, impl := range x.prog.implementers(pp.Types, it) {
+			sel := x.prog.SSA.MethodSets.MethodSet(impl).Lookup(m.Pkg(), m.Name())
+			if sel == nil {
+				continue
+			}
+			callee := x.prog.SSA.MethodValue(sel)
+			if callee == nil || callee.Synthetic != "" {
+				continue
+			}
+			ct, ok := x.specs.Funcs[fullKey(callee)]
+			if !ok || len(callee.Params) != 1 {
+				continue
+			}
+			pv := x.ifacePayload(recv.T, impl)
+			pv.Typ = impl
+			env := &SpecEnv{x: x, st: st.view(), vars: map[string]Val{}, lets: ct.Lets, pkg: callee.Pkg.Pkg}
+			env.vars[callee.Params[0].Name()] = pv
+			env.old = env
+			bindResults(env, callee.Signature, ct, []Val{res})
+			for _, cl := range ct.Ensures {
+				if traceRe.MatchString(cl.Text) {
+					continue
+				}
+				t, err := env.EvalBool(cl.Node)
+				if err != nil {
+					continue
+				}
+				st.assume(Implies(x.ifaceIs(recv.T, impl), t))
+			}
+		}
+	}
+}
